@@ -18,6 +18,7 @@ package services
 
 import (
 	"context"
+	"sync"
 	"time"
 
 	"github.com/go-logr/logr"
@@ -59,32 +60,54 @@ func (s *svcAcmeServer) Start(ctx context.Context) error {
 func initSvcAcmeClient(ctx context.Context, config *config.Config, logger *lfactory, cache acme.Cache, metrics types.Metrics, svcleader *svcLeader, checkCallback svcAcmeCheckFnc) *svcAcmeClient {
 	signer := acme.NewSigner(logger.new("acme.client"), cache, metrics)
 	callback := func(_ context.Context, item any) error { return signer.Notify(item) }
-	ratelimiter := workqueue.ExponentialFailureRateLimiter[any](config.AcmeFailInitialDuration, config.AcmeFailMaxDuration)
-	queue := workqueue.New(callback, ratelimiter)
+	newQueue := func() utils.QueueFacade {
+		ratelimiter := workqueue.ExponentialFailureRateLimiter[any](config.AcmeFailInitialDuration, config.AcmeFailMaxDuration)
+		return workqueue.New(callback, ratelimiter)
+	}
 	return &svcAcmeClient{
-		log:    logr.FromContextOrDiscard(ctx).WithName("acme").WithName("client"),
-		leader: svcleader,
-		check:  checkCallback,
-		config: config,
-		signer: signer,
-		queue:  queue,
+		log:      logr.FromContextOrDiscard(ctx).WithName("acme").WithName("client"),
+		leader:   svcleader,
+		check:    checkCallback,
+		config:   config,
+		signer:   signer,
+		newQueue: newQueue,
+		queue:    newQueue(),
 	}
 }
 
 type svcAcmeClient struct {
-	log    logr.Logger
-	leader *svcLeader
-	check  svcAcmeCheckFnc
-	config *config.Config
-	signer acme.Signer
-	queue  utils.QueueFacade
+	log      logr.Logger
+	leader   *svcLeader
+	check    svcAcmeCheckFnc
+	config   *config.Config
+	signer   acme.Signer
+	newQueue func() utils.QueueFacade
+	mu       sync.Mutex
+	queue    utils.QueueFacade
+	started  bool
+}
+
+func (s *svcAcmeClient) getQueue() utils.QueueFacade {
+	s.mu.Lock()
+	defer s.mu.Unlock()
+	return s.queue
 }
 
 func (s *svcAcmeClient) Start(ctx context.Context) error {
 	s.log.Info("starting")
+	// Start is called every time this instance starts to lead. A work queue
+	// cannot be used again after it was shut down, which happens when the
+	// leadership is lost, so every term but the first one needs its own queue.
+	s.mu.Lock()
+	if s.started {
+		s.queue = s.newQueue()
+	}
+	s.started = true
+	queue := s.queue
+	s.mu.Unlock()
 	group := errgroup.Group{}
 	group.Go(func() error {
-		return s.queue.Start(ctx)
+		return queue.Start(ctx)
 	})
 	group.Go(func() error {
 		period := s.config.AcmeCheckPeriod
@@ -110,20 +133,20 @@ func (s *svcAcmeClient) Start(ctx context.Context) error {
 // TODO: Can be converted to `item string` after removing legacy controller.
 func (s *svcAcmeClient) Add(item interface{}) {
 	if s.leader.isLeader() {
-		s.queue.Add(item)
+		s.getQueue().Add(item)
 	}
 }
 
 // implements utils.QueueFacade
 func (s *svcAcmeClient) AddAfter(item interface{}, duration time.Duration) {
 	if s.leader.isLeader() {
-		s.queue.AddAfter(item, duration)
+		s.getQueue().AddAfter(item, duration)
 	}
 }
 
 // implements utils.QueueFacade
 func (s *svcAcmeClient) Remove(item interface{}) {
-	s.queue.Remove(item)
+	s.getQueue().Remove(item)
 }
 
 // svcAcmeClient just satisfies LeaderElector interface. The new controller controls if
